@@ -84,6 +84,10 @@ func c44ExplicitAddr(i, variant int) string {
 		return "0x" + strings.Repeat(fmt.Sprintf("%XaB%x", 1+i, 1+i), 10)
 	case 2:
 		return c44PopulatedDefault((i + 1) % len(c44Contracts))
+	case 3:
+		// explicit but malformed (39 hex digits): it has to be kept as configured and be
+		// refused where it is used, not silently replaced by a default
+		return "0x" + strings.Repeat(fmt.Sprintf("%02x", 0x21+i), 20)[1:]
 	}
 	return "0x" + strings.Repeat(fmt.Sprintf("%02x", 0x11+i), 20)
 }
@@ -394,6 +398,14 @@ func c44Run(r *vrep.R, e *c44Env, c c44Case, reached map[string]bool) {
 		got := cfg.Ethereum.ContractAddresses[strings.ToLower(ct.name)]
 		addr, aerr := cfg.Ethereum.ContractAddress(ct.name)
 		if want, ok := exAddr[i]; ok {
+			if c.AddrVariant == 3 {
+				// malformed explicit value: kept verbatim, and ContractAddress reports it
+				if got != want || aerr == nil {
+					report("contract-explicit-malformed", fmt.Sprintf("explicit (malformed) %s address %q became %q (ContractAddress: %v, %v)", ct.name, want, got, addr, aerr))
+				}
+				r.Outcome("contracts:explicit-malformed-kept")
+				continue
+			}
 			if got != want || aerr != nil || addr != common.HexToAddress(want) {
 				report("contract-explicit", fmt.Sprintf("explicit %s address %q became %q (ContractAddress: %v, %v)", ct.name, want, got, addr, aerr))
 			}
@@ -448,10 +460,10 @@ func TestVerifC44(t *testing.T) {
 	}
 
 	netFlags := []int{0, 1, 2, 4, 3, 5, 6, 7}
-	addrVariants := []int{0}
+	addrVariants := []int{0, 3}
 	rngs := []int{0, 1, 2, 3, 8, 9, 10, 11}
 	if r.Thorough() {
-		addrVariants = []int{0, 1, 2}
+		addrVariants = []int{0, 1, 2, 3}
 		rngs = []int{0, 1, 2, 3, 4, 5, 6, 7, 8, 9, 10, 11}
 	}
 	type outer struct{ net, peers, electrum, rng int }
@@ -486,6 +498,9 @@ func TestVerifC44(t *testing.T) {
 					for _, av := range addrVariants {
 						if mask == 0 && av != addrVariants[0] {
 							continue // no explicit address: the variant changes nothing
+						}
+						if av == 3 && mask&(mask-1) != 0 {
+							continue // the malformed variant is tried with one explicit contract at a time
 						}
 						if mask == 1<<uint(len(c44Contracts))-1 && unset == 1 {
 							continue // nothing unset: the representation changes nothing
